@@ -6,7 +6,7 @@ Request lines (hex = UTF-8 of the text, `-` = empty):
 Driver-only operations used by the spec-validation pre-build step:
   stmpl / ctmpl <hex>       Lean Spec.formatterParser: raw CPython tuples / canonical parts
   sfname <hex> <cp=d,...>   Lean Spec.fieldNameSplit with the non-ASCII decimal digits of the text
-  dom <hex>, fdom <hex> <tbl>   the domain predicates of the `_partial` theorems
+  fdom <hex> <tbl>          the domain predicate of fieldname_eq_partial
 
 Oracle: CPython 3.11 `_string.formatter_parser` / `_string.formatter_field_name_split` (the API level
 named by the property's observe_at; see design/C20.md).  Only acceptance/rejection and the parts are
@@ -25,15 +25,8 @@ LEAN_TARGETS = ["PV.C20.Thm"]
 DRIVER = "drv_c20"
 HARNESS = {"bin": "pvh_c20", "features": "default"}
 THEOREMS = [
-    "PV.C20.template_eq_partial",
-    "PV.C20.template_fails",
-    "PV.C20.deviates_bracket_open",
-    "PV.C20.deviates_bracket_brace",
-    "PV.C20.deviates_bracket_bang",
-    "PV.C20.deviates_brace_in_name",
-    "PV.C20.deviates_conversion_char",
-    "PV.C20.deviates_spec_depth",
-    "PV.C20.deviates_spec_bracket",
+    "PV.C20.template_eq",
+    "PV.C20.template_regressions",
     "PV.C20.doubled_braces",
     "PV.C20.fieldname_eq_partial",
     "PV.C20.fieldname_fails",
@@ -44,40 +37,37 @@ THEOREMS = [
 TRUSTED = [
     "Lean 4.33.0 kernel; axioms limited to propext, Classical.choice, Quot.sound",
     "hand-written model lean/PV/C20/Model.lean of format/src/format.rs (FormatString::parse_literal_single, "
-    "parse_literal, parse_spec, parse_part_in_brackets, FromTemplate::from_str, FieldName::parse, "
+    "parse_literal, parse_spec [one-pass, /repo commit eebce66], FromTemplate::from_str, FieldName::parse, "
     "FieldNamePart::parse_part), tied to the code by the correspondence streams of this run "
     "(exhaustive over a 10-symbol alphabet to length 5/6, plus random)",
     "contract of str::parse::<usize>() (optional '+', ASCII digits, error on overflow above 2^64-1), "
-    "str::splitn(2,'!'), Itertools::exactly_one and peeking_take_while as modelled",
+    "str::Chars::as_str / slicing by consumed length, char_indices and Itertools::peeking_take_while as modelled",
     "lean/PV/C20/Spec.lean as the meaning of CPython's MarkupIterator_next/parse_field/field_name_split/"
     "FieldNameIterator_next/get_integer: validated on every run against python3 (CPython 3.11.7) "
     "_string.formatter_parser and _string.formatter_field_name_split (raw tuples, canonical parts, field names)",
     "Py_UNICODE_TODECIMAL is a parameter of the field-name spec (unicodedata.decimal at run time)",
-    "tools/props/c20.py (generators, canonicaliser of CPython's tuples, Python copy of the domain automaton, "
+    "tools/props/c20.py (generators, canonicaliser of CPython's tuples, Python copy of fieldNameInDomain "
     "validated against the Lean one), harness/src/bin/pvh_c20.rs, lean/Drv/C20.lean",
 ]
 PARTIAL = [
-    "template_full is false on the unchanged code (template_fails). template_eq_partial covers every template "
-    "outside five hazard shapes (Domain.lean H1-H5: brace or '!' inside a field-name index bracket, '{' in a "
-    "field name, conversion character that is one of { } : [, second nesting level in a format spec, '[' in a "
-    "format spec followed by spec text without ']'); each hazard has a witnessed deviation theorem and is a "
-    "listed known finding.",
+    "template splitting: nothing missing (template_eq holds for every template since /repo commit eebce66).",
     "fieldname_full is false (fieldname_fails). fieldname_eq_partial needs: no '+', no non-ASCII decimal digit, "
-    "ASCII digit runs of value <= 2^63-1 (Rust usize::from_str vs CPython get_integer).",
+    "ASCII digit runs of value <= 2^63-1 (Rust usize::from_str vs CPython get_integer); the two in-alphabet "
+    "deviations are listed known findings.",
 ]
 READY = True
 TECHNIQUE = ("Lean 4 theorems relating a hand-written model of the Rust scanners to an independent Lean "
              "definition of CPython's scanners (induction over the character list, three automata in lockstep) "
              "+ exhaustive/random correspondence with the real crate + CPython as oracle and as validator of the spec")
-LEVEL_TEXT = ("Machine-checked Lean 4 theorems for templates and field names of every length: on the explicit "
-              "decidable domain inDomain the modelled FormatString::from_str returns exactly the canonical part "
-              "sequence of CPython's formatter_parser (literal pieces with doubled braces unescaped; field name, "
-              "conversion, spec with nested braces verbatim) and rejects exactly the same templates; doubled "
-              "braces round-trip for every text; on fieldNameInDomain the modelled FieldName::parse returns "
-              "CPython's head and accessor chain. The five template hazards and three field-name hazards outside "
-              "the domains are proved to be real deviations by concrete witnesses. The model is tied to the Rust "
-              "code by exhaustive small-scope plus random correspondence on every run; the real code is "
-              "additionally judged directly by CPython, and the Lean spec is re-validated against CPython.")
+LEVEL_TEXT = ("Machine-checked Lean 4 theorems for templates and field names of every length: for EVERY template "
+              "the modelled FormatString::from_str returns exactly the canonical part sequence of CPython's "
+              "formatter_parser (literal pieces with doubled braces unescaped; field name, conversion, spec with "
+              "nested braces verbatim) and rejects exactly the same templates (template_eq, no domain restriction); "
+              "doubled braces round-trip for every text; on the decidable domain fieldNameInDomain the modelled "
+              "FieldName::parse returns CPython's head and accessor chain, and the three integer-reading "
+              "deviations outside it are proved by concrete witnesses. The model is tied to the Rust code by "
+              "exhaustive small-scope plus random correspondence on every run; the real code is additionally "
+              "judged directly by CPython, and the Lean spec is re-validated against CPython.")
 LEVEL_NOTE = ("Trusted: Lean kernel, fidelity of the hand-written model as sampled by correspondence (all strings "
               "over { } [ ] ! : . 0 a e-acute to length 5 quick / 6 thorough, both operations), CPython 3.11.7 as "
               "the reference, the Rust std contracts named in the trusted base, harness and generator.")
@@ -162,73 +152,7 @@ def dec_table(s):
     return ",".join("%d=%d" % kv for kv in items) if items else "-"
 
 
-# ------------------------------------------------------------------ domain automaton (copy of Domain.lean)
-
-def hazard(s):
-    """None if the template is in the domain of template_eq_partial, else 'H1'..'H5'
-    (Python copy of PV.C20.domFrom; checked against the Lean one in pre_build)."""
-    t = [ord(c) for c in s]
-    st = "lit"
-    nested = False
-    br = 0
-    i = 0
-    n = len(t)
-    while i < n:
-        c = t[i]
-        i += 1
-        if st == "lit":
-            if c in (LB, RB):
-                if i >= n:
-                    return None
-                if t[i] == c:
-                    i += 1
-                elif c == LB:
-                    st = "name"
-                else:
-                    return None
-        elif st == "name":
-            if c == LB:
-                return "H2"
-            elif c == LS:
-                st = "nameBr"
-            elif c == RB:
-                st = "lit"
-            elif c == COLON:
-                st, nested, br = "spec", False, 0
-            elif c == BANG:
-                st = "conv"
-        elif st == "nameBr":
-            if c in (LB, RB, BANG):
-                return "H1"
-            if c == RS:
-                st = "name"
-        elif st == "conv":
-            if c in (LB, RB, COLON, LS):
-                return "H3"
-            st = "convEnd"
-        elif st == "convEnd":
-            if c == RB:
-                st = "lit"
-            elif c == COLON:
-                st, nested, br = "spec", False, 0
-            else:
-                return None
-        else:  # spec
-            nbr = (1 if c == LS else 0) if br == 0 else (0 if c == RS else 2)
-            if c == LB:
-                if nested:
-                    return "H4"
-                nested = True
-            elif c == RB:
-                if nested:
-                    nested = False
-                elif br == 2:
-                    return "H5"
-                else:
-                    st = "lit"
-            br = nbr
-    return None
-
+# ------------------------------------------------------------------ field-name domain (copy of Domain.lean)
 
 def fname_hazard(s):
     """None if the field name is in the domain of fieldname_eq_partial, else the hazard name."""
@@ -249,11 +173,6 @@ def fname_hazard(s):
 
 
 KEYS = {
-    "H1": "tmpl-index-bracket-hides-brace-or-bang",
-    "H2": "tmpl-brace-in-field-name",
-    "H3": "tmpl-conversion-char-is-delimiter",
-    "H4": "tmpl-spec-nesting-depth-2",
-    "H5": "tmpl-open-bracket-in-spec",
     "overflow": "fname-index-overflow",
     "unicode-digit": "fname-unicode-digit",
 }
@@ -284,13 +203,12 @@ def oracle(req, out):
 
 def classify(req, impl_out, model_out, failure):
     """A failure is a listed finding only if (1) CPython disagrees with the implementation, (2) the Lean model
-    predicts exactly this behaviour of the implementation, (3) the input has one of the hazard shapes that the
-    `_partial` theorems exclude.  Anything else (in-domain input, changed behaviour) is reported."""
+    predicts exactly this behaviour of the implementation, (3) it is a field-name request whose text has one of
+    the integer-reading hazards that fieldname_eq_partial excludes.  Template requests are never classified:
+    template_eq has no exceptions.  Anything else (in-domain input, changed behaviour) is reported."""
     if not failure or model_out is None or impl_out != model_out:
         return None
     op, s = _text(req)
-    if op == "tmpl":
-        return KEYS.get(hazard(s))
     if op == "fname":
         h = fname_hazard(s)
         return KEYS.get(h)          # 'plus' has no key: outside the property's alphabet, never generated
@@ -337,8 +255,9 @@ def _all_strings(maxlen):
 
 IDENTS = ["a", "x1", "key", "é", "日本", "_", "self", "A9"]
 NUMS = ["0", "1", "12", "007", "255", "256", "65536", "4294967295", "4294967296", "9223372036854775807"]
-CONVS = ["r", "s", "a", "b", "x", "é", "!", "]", "."]
-FILLS = ["", ">", "<10", "^{w}", "{0}", ".{p}f", "0=+8,.3e", "é<4", "[]", "[^9]", "a]", ":", "!r", "x!", "{}{}"]
+CONVS = ["r", "s", "a", "b", "x", "é", "!", "]", ".", "}", ":", "[", "{", "rs", ""]
+FILLS = ["", ">", "<10", "^{w}", "{0}", ".{p}f", "0=+8,.3e", "é<4", "[]", "[^9]", "a]", ":", "!r", "x!", "{}{}",
+         "[<5", "{{}}", "{a{b}}", "[", "{[}", "]>{w[}]}"]
 
 
 def _rand_fname(rng):
@@ -348,7 +267,7 @@ def _rand_fname(rng):
         if rng.random() < 0.5:
             parts.append("." + rng.choice(IDENTS + NUMS))
         else:
-            parts.append("[" + rng.choice(IDENTS + NUMS + ["a b", "-1", ":", "a.b", "é!", "0x"]) + "]")
+            parts.append("[" + rng.choice(IDENTS + NUMS + ["a b", "-1", ":", "a.b", "é!", "0x", "}", "{", "!", "{}", "a}b"]) + "]")
     return head + "".join(parts)
 
 
@@ -383,21 +302,15 @@ def _mutate(rng, s, alpha):
 
 
 # deterministic probes: one per listed finding (first, so that the KNOWN-FINDING line is printed on every
-# run), then past / suspected problem inputs
+# run), then the templates repaired by /repo commit eebce66 (regression), then past / suspected problem inputs
 FINDING_PROBES = [
-    "tmpl " + hexs("{a[}"),            # H1 accepted, CPython rejects
-    "tmpl " + hexs("{a[}]}"),          # H1 rejected, CPython accepts
-    "tmpl " + hexs("{a[!]}"),          # H1 split differently
-    "tmpl " + hexs("{a{b}c}"),         # H2
-    "tmpl " + hexs("{!}}"),            # H3
-    "tmpl " + hexs("{x!:}"),           # H3
-    "tmpl " + hexs("{:{{}}}"),         # H4
-    "tmpl " + hexs("{:[<5}"),          # H5
     "fname " + hexs("9223372036854775808"),      # overflow: index 2^63 / CPython raises
     "fname " + hexs("a[99999999999999999999]"),  # overflow: string index / CPython raises
     "fname " + hexs("٣"),              # unicode digit
     "fname " + hexs("a[٣٤]"),
 ]
+REGRESSIONS = ["{a[}", "{a[}]}", "{a[!]}", "{[{]}", "{a{b}c}", "{!}}", "{x!:}", "{![:]}", "{!{:}}", "{:{{}}}",
+               "{:{a{b}}}", "{:[<5}", "{a:[b}", "{:{[}}", "{0[}]!r:[{[}]}"]
 CORPUS_TMPL = ["", "a", "{}", "{{", "}}", "{", "}", "{{}", "{}}", "{{}}", "{{{key}}}ddfe", "abcd{1}:{key}",
                "{a:%ЫйЯЧ}", "{s", "{[:123]}", "{asdf[:123]asdf}", "{[1234}", "{0!r:>10}", "{!r}", "{a!rx}", "{a!}",
                "{!", "{a!r", "{:{}}", "{:{}{}}", "{:{}", "{:}}", "{:}}}", "{a!r}}}", "{![}", "{![a}", "{!!}",
@@ -410,22 +323,17 @@ CORPUS_FNAME = ["", "0", "key", "key.attr[0][string]", "key..", "key[]", "key[",
 
 def streams(ctx):
     out = []
-    reqs = list(FINDING_PROBES)
+    reqs = list(FINDING_PROBES) + ["tmpl " + hexs(s) for s in REGRESSIONS]
     reqs += ["tmpl " + hexs(s) for s in CORPUS_TMPL] + ["fname " + hexs(s) for s in CORPUS_FNAME]
     out.append(Stream("corpus", reqs, kind="corpus",
-                      note="one deterministic probe per listed finding, the Rust unit-test inputs, adjacency cases"))
+                      note="one deterministic probe per listed finding, the templates repaired by eebce66, the Rust "
+                           "unit-test inputs, adjacency cases"))
 
     L = 5 if ctx.quick else 6
-    ins, outs = [], []
-    for s in _all_strings(L):
-        (ins if hazard(s) is None else outs).append("tmpl " + hexs(s))
     nt = lambda r: r.split()[1] != "-"
-    out.append(Stream(f"tmpl-exhaustive-in-domain-len<={L}", ins, kind="exhaustive", exhaustive=True,
-                      note="every string over { } [ ] ! : . 0 a e-acute that inDomain accepts: implementation = "
-                           "model = CPython required", nontrivial=nt))
-    out.append(Stream(f"tmpl-exhaustive-hazard-shapes-len<={L}", outs, kind="exhaustive", exhaustive=True,
-                      note="the remaining strings (hazards H1-H5): implementation = model required; where CPython "
-                           "differs the request is counted as a hit of the listed finding of its hazard", nontrivial=nt))
+    out.append(Stream(f"tmpl-exhaustive-len<={L}", ["tmpl " + hexs(s) for s in _all_strings(L)], kind="exhaustive",
+                      exhaustive=True, note="every string over { } [ ] ! : . 0 a e-acute as a template: "
+                      "implementation = model = CPython required", nontrivial=nt))
     out.append(Stream(f"fname-exhaustive-len<={L}", ["fname " + hexs(s) for s in _all_strings(L)], kind="exhaustive",
                       exhaustive=True, note="every string over the same alphabet as a field name", nontrivial=nt))
 
@@ -433,14 +341,12 @@ def streams(ctx):
     n = 4000 if ctx.quick else 120000
     reqs = []
     for _ in range(n):
-        t = _rand_template(rng)
-        if hazard(t) is None:
-            reqs.append("tmpl " + hexs(t))
+        reqs.append("tmpl " + hexs(_rand_template(rng)))
         f = _rand_fname(rng)
         if fname_hazard(f) is None:
             reqs.append("fname " + hexs(f))
     out.append(Stream("random-structured", reqs, kind="random",
-                      note="grammar-generated templates and field names (mostly accepted), hazard shapes filtered out",
+                      note="grammar-generated templates and field names (mostly accepted); field names with a listed integer hazard filtered out",
                       nontrivial=nt))
 
     rng = ctx.rng("malformed")
@@ -451,14 +357,13 @@ def streams(ctx):
             t = _mutate(rng, _rand_template(rng), alpha)
         else:
             t = "".join(rng.choice(alpha) for _ in range(rng.randrange(0, 14)))
-        if hazard(t) is None:
-            reqs.append("tmpl " + hexs(t))
+        reqs.append("tmpl " + hexs(t))
         f = _mutate(rng, _rand_fname(rng), alpha) if rng.random() < 0.6 else "".join(
             rng.choice(alpha) for _ in range(rng.randrange(0, 10)))
         if fname_hazard(f) is None:
             reqs.append("fname " + hexs(f))
     out.append(Stream("malformed", reqs, kind="malformed",
-                      note="mutated templates / field names and random symbol soup, hazard shapes filtered out",
+                      note="mutated templates / field names and random symbol soup; field names with a listed integer hazard filtered out",
                       nontrivial=nt))
     return out
 
@@ -466,7 +371,7 @@ def streams(ctx):
 # ------------------------------------------------------------------ spec validation (pre-build step)
 
 def pre_build(ctx):
-    """Build the driver and check the Lean *spec* (not the model) and the Lean domain predicate against
+    """Build the driver and check the Lean *spec* (not the model) and the Lean field-name domain predicate against
     CPython / the Python copy: a difference here is a defect of the check, reported as a broken obligation."""
     rc, log = core.lake_build([DRIVER])
     if rc != 0:
@@ -484,7 +389,7 @@ def pre_build(ctx):
             texts.append(_mutate(rng, _rand_template(rng), alpha))
         else:
             texts.append("".join(rng.choice(alpha) for _ in range(rng.randrange(0, 12))))
-    texts += CORPUS_TMPL + [unhex(r.split()[1]).decode() for r in FINDING_PROBES]
+    texts += CORPUS_TMPL + REGRESSIONS + [unhex(r.split()[1]).decode() for r in FINDING_PROBES]
     fnames = texts + CORPUS_FNAME + [_rand_fname(rng) for _ in range(2000)] + [
         "٣", "a[٣]", "१२", "9" * 25, "0" * 30 + "1", "9223372036854775808", "a[9223372036854775808]x", "12a", "1٣"]
     res = []
@@ -501,8 +406,6 @@ def pre_build(ctx):
         ["ctmpl " + hexs(s) for s in texts], [py_tmpl(s) for s in texts])
     run("Spec.fieldNameSplit = CPython formatter_field_name_split",
         [f"sfname {hexs(s)} {dec_table(s)}" for s in fnames], [py_fname(s) for s in fnames])
-    run("Python copy of inDomain = Lean inDomain",
-        ["dom " + hexs(s) for s in texts], [str(hazard(s) is None).lower() for s in texts])
     run("Python copy of fieldNameInDomain = Lean fieldNameInDomain",
         [f"fdom {hexs(s)} {dec_table(s)}" for s in fnames], [str(fname_hazard(s) is None).lower() for s in fnames])
     return res
